@@ -9,6 +9,27 @@ COMMON_NOTE = ("Trusted base: CPython 3.12, numpy/scipy, icontract (or vlib.atta
                "(independent of molgri, see DESIGN.md section 3.2/5). Decides only the executions produced; nothing is 'verified'.")
 
 CHECKS = {
+    "C10": dict(
+        technique="runtime monitors (postconditions with reference snapshots on Pseudotrajectory.__init__/get_pt_as_universe, PtWriter.__init__/write_full_pt) against an own quaternion->matrix and rigid-placement formula",
+        text="Every frame of every pseudotrajectory the workload produces is compared with R(q_k)(x_ref - com) + com + p_k (own scalar-last quaternion "
+             "formula), first molecule unchanged, intramolecular distances, atom order/names/types, frame count; for the writer route the written "
+             "xyz file is read back. Molecules are generated files (single atoms, collinear, planar, non-planar, off-centre; xyz/gro/pdb) read "
+             "through the package's reader; arrays are real grids, re-sorted/thinned grids, random quaternions of both signs, orientation pools, "
+             "near-identity rotations; histories include PtWriter -> write_structure -> write_full_pt.",
+        design_ref="5/C10"),
+    "C11": dict(
+        technique="runtime monitor (postcondition on AssignmentTool.get_full_assignments) against nearest-radius / nearest-direction / max |q.q_b| computed from the known placements, with ambiguity margins",
+        text="Placements with known position and rotation are produced through the monitored pseudotrajectory code and assigned by the real tool; "
+             "every frame outside the ambiguity margins must get (t*n_o+o)*n_b+b, NaN beyond the outer boundary unless outliers are included, and a "
+             "grid's own pseudotrajectory must map to 0,1,2,... Set-ups vary grid sizes (non-equidistant and large radii), both metrics, both "
+             "outlier settings, planar/non-planar second molecules, repeated use of one grid array.",
+        design_ref="5/C11"),
+    "C15": dict(
+        technique="runtime monitor (postcondition on HalfRotobjVoronoi/MikroVoronoi.get_voronoi_volumes) against a Monte-Carlo nearest-rotation measure with sequential error control",
+        text="Every volume vector of the real rotation grids is judged: positive, equal to the first N of the 2N double-cover volumes, sum within 12% "
+             "of pi^2, each cell within 30% of the Monte-Carlo measure of {x on S^3: argmax|x.q| = i} (violated only beyond 4 standard errors, sample "
+             "quadrupled up to 2.6e7, else ambiguous); N<4 and 3-D N<4: the documented equal shares exactly. Known finding F12 (randomQ_5 cell 4).",
+        design_ref="5/C15"),
     "C06": dict(
         technique="runtime monitors (postconditions on the PositionGrid getters in Cartesian mode) against an own Euclidean Voronoi oracle (Newell face areas, cone-sum volumes) cross-checked by qhull-free half-plane clipping",
         text="Every volume / border / distance result of real Cartesian-mode PositionGrid objects is compared with the Euclidean Voronoi cells of the "
